@@ -40,6 +40,8 @@ def run(chk, tier):
     evars = prog.variant_names(ERR)
     from ..report import run_sub
     run_sub(chk, 'c07', 'C07.', {'R3'})
+    # termination: every round ends at the time limit at the latest, whatever the network does (publish policy table of update_round)
+    run_sub(chk, 'c08', 'C08.', {'R1', 'R1e', 'R5'})
 
     # ---- R1 ---------------------------------------------------------------------------------------------
     chk.rule('R1', 'exactly max_rounds rounds: loop guard, finished(), round counter writers', floor=5)
